@@ -6,6 +6,7 @@ import ZorgVerif.Model.Rename
 import ZorgVerif.Model.Template
 import ZorgVerif.Gen.FileLexer
 import ZorgVerif.Gen.QueryLexer
+import ZorgVerif.Model.Query
 /-! Line protocol: one JSON request per line on stdin, one JSON answer per line on stdout. -/
 open Lean ZorgVerif
 
@@ -146,6 +147,87 @@ def handleLex (op : String) (j : Json) : Except String Json := do
     pure (Json.arr (toks.map (fun t => Json.arr #[Json.str t.name, jstr t.text])).toArray)
   | _ => throw s!"unknown op {op}"
 
+namespace QJ
+open Query
+def date (d : Date) : Json := Json.arr #[d.y, d.m, d.d]
+def selField : SelectField → List Json
+  | .file => ["file"] | .note => ["note"] | .prop => ["prop"] | .propValues k => ["propValues", jstr k]
+  | .links => ["links"] | .area => ["area"] | .context => ["context"] | .person => ["person"] | .project => ["project"]
+def select : Select → Json
+  | .field f => Json.arr (("field" : Json) :: selField f).toArray
+  | .count f => Json.arr (("count" : Json) :: selField f).toArray
+def kind : NoteKind → Json
+  | .basic => "BASIC" | .openTodo => "OPEN_TODO" | .closedTodo => "CLOSED_TODO" | .canceledTodo => "CANCELED_TODO"
+  | .blockedTodo => "BLOCKED_TODO" | .parentTodo => "PARENT_TODO"
+def tagKind : TagKind → Json
+  | .area => "areas" | .context => "contexts" | .person => "people" | .project => "projects"
+def op : PropOp → Json
+  | .exists => "EXISTS" | .eq => "EQ" | .lt => "LT" | .le => "LE" | .gt => "GT" | .ge => "GE"
+def vt : VType → Json
+  | .date => "DATE" | .integer => "INTEGER" | .string => "STRING"
+def order : OrderBy → Json
+  | .alpha => "ALPHA" | .createDate => "CREATE_DATE" | .modifyDate => "MODIFY_DATE" | .none => "NONE"
+  | .noteType => "NOTE_TYPE" | .priority => "PRIORITY"
+def group : GroupBy → Json
+  | .area => "AREA" | .context => "CONTEXT" | .file => "FILE" | .noteType => "NOTE_TYPE" | .person => "PERSON"
+  | .priority => "PRIORITY" | .project => "PROJECT" | .section => "SECTION"
+def range (r : DateRange) : List Json := [date r.start, match r.stop with | some d => date d | none => Json.null]
+def atom : Atom → Json
+  | .kinds ks => Json.arr #["kinds", Json.arr (ks.map kind).toArray]
+  | .priorities ps => Json.arr #["priorities", Json.arr (ps.map (fun (n : Nat) => Json.num n)).toArray]
+  | .tag k n name => Json.arr #["tag", tagKind k, n, jstr name]
+  | .created r => Json.arr (("created" : Json) :: range r).toArray
+  | .modified r => Json.arr (("modified" : Json) :: range r).toArray
+  | .prop k v o t n => Json.arr #["prop", jstr k, jstr v, op o, vt t, n]
+  | .desc v c n => Json.arr #["desc", jstr v, c, n]
+  | .file g n => Json.arr #["file", jstr g, n]
+  | .link t n => Json.arr #["link", jstr t, n]
+mutual
+partial def andF : AndF → Json
+  | .mk atoms subs => Json.mkObj [("atoms", Json.arr (atoms.map atom).toArray), ("subs", Json.arr (subs.map orF).toArray)]
+partial def orF (o : OrF) : Json := Json.arr (o.map andF).toArray
+end
+def query (q : Query) : Json :=
+  Json.mkObj [("select", select q.select), ("where", match q.where_ with | some o => orF o | none => Json.null),
+    ("order", Json.arr (q.orderBy.map order).toArray), ("group", Json.arr (q.groupBy.map group).toArray)]
+def orderOfName : String → Option OrderBy
+  | "ALPHA" => some .alpha | "CREATE_DATE" => some .createDate | "MODIFY_DATE" => some .modifyDate | "NONE" => some .none
+  | "NOTE_TYPE" => some .noteType | "PRIORITY" => some .priority | _ => none
+def groupOfName : String → Option GroupBy
+  | "AREA" => some .area | "CONTEXT" => some .context | "FILE" => some .file | "NOTE_TYPE" => some .noteType
+  | "PERSON" => some .person | "PRIORITY" => some .priority | "PROJECT" => some .project | "SECTION" => some .section | _ => none
+def selectOfName : String → Option Select
+  | "NOTE" => some (.field .note) | "FILE" => some (.field .file) | "AREA" => some (.field .area) | "CONTEXT" => some (.field .context)
+  | "PERSON" => some (.field .person) | "PROJECT" => some (.field .project) | "PROPERTY" => some (.field .prop) | "LINKS" => some (.field .links)
+  | _ => none
+/-- the generated `Query()` defaults -/
+def defaults : Except String Defaults := do
+  let sel ← match selectOfName Gen.queryDefaultSelect with | some s => pure s | none => throw "unknown default select"
+  let ob ← Gen.queryDefaultOrder.mapM (fun n => match orderOfName n with | some o => pure o | none => throw s!"unknown order {n}")
+  let gb ← Gen.queryDefaultGroup.mapM (fun n => match groupOfName n with | some o => pure o | none => throw s!"unknown group {n}")
+  pure ⟨sel, ob, gb⟩
+end QJ
+
+def handleQuery (op : String) (j : Json) : Except String Json := do
+  match op with
+  | "query.parse" =>
+    let txt ← strOf j "text"
+    let today ← dateOf j "today"
+    let dflt ← QJ.defaults
+    let toks := Lex.lex Gen.QueryLexer.rules txt.toList
+    if toks.any (fun t => t.name == "<err>") then
+      pure (Json.mkObj [("err", "lexer")])
+    else
+      match Query.parseToks dflt today toks with
+      | .ok q => pure (Json.mkObj [("ok", QJ.query q)])
+      | .error (.syntax w) => pure (Json.mkObj [("err", "syntax"), ("what", w)])
+      | .error (.valueError w) => pure (Json.mkObj [("err", "ValueError"), ("what", w)])
+      | .error .fuel => pure (Json.mkObj [("err", "fuel")])
+  | "query.normalise" =>
+    let txt ← strOf j "text"
+    pure (Json.mkObj [("out", jstr (Query.normalise txt.toList))])
+  | _ => throw s!"unknown op {op}"
+
 def handle (line : String) : Json :=
   match Json.parse line with
   | .error e => Json.mkObj [("driver_error", s!"parse: {e}")]
@@ -159,6 +241,7 @@ def handle (line : String) : Json :=
         else if op.startsWith "rename." then handleRename op j
         else if op.startsWith "template." then handleTemplate op j
         else if op.startsWith "lex." then handleLex op j
+        else if op.startsWith "query." then handleQuery op j
         else .error s!"unknown op {op}"
       match r with
       | .ok v => v
